@@ -89,6 +89,15 @@ def _limit_corrupt(evs, profile):
     return None
 
 
+def _adaptive_corrupt(evs, profile):
+    out = [dict(e) for e in evs]
+    for e in out[1:]:
+        if e.get('e') == 'drop' and 'inf' in e:
+            e['inf'] += 1
+            return out
+    return None
+
+
 COMPONENTS = {
     'bulkhead': {
         'spec_files': ['Bulkhead.tla', 'MC_Bulkhead.tla', 'Trace_Bulkhead.tla'],
@@ -136,6 +145,15 @@ COMPONENTS = {
         'random': {'quick': [{'runs': 0}], 'thorough': [{'runs': 0}]},
         'corrupt': _limit_corrupt,
     },
+    'adaptive': {
+        'spec_files': ['Adaptive.tla', 'MC_Adaptive.tla', 'Trace_Adaptive.tla'],
+        'mc': {'quick': [{'cfg': 'MC_Adaptive_q.cfg', 'module': 'MC_Adaptive'}], 'thorough': [{'cfg': 'MC_Adaptive.cfg', 'module': 'MC_Adaptive'}]},
+        'gen': {'cfg': 'Gen_Adaptive.cfg', 'module': 'MC_Adaptive', 'num': {'quick': 300, 'thorough': 4000}, 'depth': 40},
+        'trace_module': 'Trace_Adaptive', 'trace_cfg_tmpl': 'Trace_Adaptive.cfg.tmpl',
+        'harness': 'adaptive',
+        'random': {'quick': [{'runs': 1200}], 'thorough': [{'runs': 15000}]},
+        'corrupt': _adaptive_corrupt,
+    },
 }
 
 PROPS = {
@@ -147,6 +165,7 @@ PROPS = {
             'gen': {'cfg': 'Gen_CB_seq.cfg', 'module': 'MC_CircuitBreaker', 'num': {'quick': 400, 'thorough': 5000}, 'depth': 45},
             'random': {'quick': [{'runs': 1200, 'args': ['--variant', 'seq']}], 'thorough': [{'runs': 6000, 'args': ['--variant', 'seq']}, {'runs': 3000, 'size': 'quick', 'args': ['--variant', 'seq']}]}},
     'C08': {'comp': 'budget', 'profile': 'lin'},
+    'C13': {'parts': [{'comp': 'limit', 'profile': 'bounds'}, {'comp': 'adaptive', 'profile': 'service'}]},
     'C02': {'comp': 'ratelimiter', 'profile': 'ProfC02', 'drift_profile': 'ProfAll'},
     'C15': {'comp': 'ratelimiter', 'profile': 'ProfC15', 'drift_profile': 'ProfAll'},
 }
